@@ -178,6 +178,7 @@ class FnSpec:
         self.replace = []    # (k, pattern, [lines])
         self.unsafe_stub = {}  # k -> [lines]
         self.tail = []
+        self.subst = []      # (from_text, to_text): R8 type-parameter instantiation
         self.calls = []
         self.sig_only = False
 
@@ -297,6 +298,10 @@ class Generator:
                     raise ExtractError("%s:%d: bad directive %s" % (path, i + 1, s))
                 cur = []
                 getattr(spec, m.group(1)).append((int(m.group(2)), m.group(3), cur))
+            elif s.startswith("//@subst "):
+                a, b = s[len("//@subst "):].split("=>", 1)
+                spec.subst.append((a.strip(), b.strip()))
+                cur = None
             elif s.startswith("//@call "):
                 # //@call k fname : replace the k-th call `fname(args..)` (or `recv.fname(args..)`) by the
                 # template in the section body; $1..$n are the ACTUAL argument texts, $0 the receiver
@@ -458,6 +463,8 @@ class Generator:
             spec.calls = [(k, fn_, [fr(x) for x in ls]) for (k, fn_, ls) in spec.calls]
             if spec.valid:
                 spec.valid = fr(spec.valid)
+        if getattr(spec, "subst", None):
+            body = self.relex(self.apply_subst(text_of(body), spec), body)
         body = self.rewrite_body(body, spec, rec)
         self.emit("{")
         pre = self.param_prologue(header, spec)
@@ -602,7 +609,17 @@ class Generator:
         head, nvis = re.subn(r"^pub\s*\(\s*super\s*\)\s*", "pub(crate) ", head)
         if nvis:
             self.count("R0-pub(super)", nvis)
-        return "%s(%s) %s" % (head, ", ".join(tight(x) for x in newparams), rest_txt)
+        sig = "%s(%s) %s" % (head, ", ".join(tight(x) for x in newparams), rest_txt)
+        return self.apply_subst(sig, spec)
+
+    def apply_subst(self, text, spec):
+        for a, b in getattr(spec, "subst", []):
+            toks = [re.escape(t.text) for t in code_toks(lex(a))]
+            pat = r"\s*".join(toks)
+            text, n = re.subn(pat, lambda m: b, text)
+            if n:
+                self.count("R8-instantiate", n)
+        return text
 
     def param_prologue(self, header, spec):
         out = []
